@@ -575,7 +575,7 @@ def execute_one(case, props=('C06', 'C07')):
             if v:
                 break
         if v is None:
-            ok, why = texapi.sanity()
+            ok, why = texapi.sanity(full=any(outs[t].kind != 'tree' for t in (0, 1)))
             if not ok:
                 v = {'class': 'poisoned-after-abort' if any(outs[t].kind != 'tree' for t in (0, 1))
                      else 'poisoned-process', 'detail': why}
